@@ -622,6 +622,52 @@ def base_case(draw, nmin, nmax, max_peaks, grid_kinds=("uniform", "uniform", "sm
     return case
 
 
+@st.composite
+def friendly_case(draw, nmin, nmax, max_peaks):
+    """Well separated peaks of one kind, moderate signal-to-noise, the true models among the
+    requested ones: most fits succeed, often with more than one model combination."""
+    g = draw(grids(nmin, nmax))
+    x = grid_x(g)
+    xmin, rng = float(x[0]), float(x[-1] - x[0])
+    sigma = draw(st.sampled_from([0.05, 0.3, 1.0]))
+    npk = draw(st.integers(1, max_peaks))
+    kind = draw(st.sampled_from(PEAK_KINDS))
+    slot = rng / npk
+    peaks = [{"kind": kind, "pos": xmin + (i + 0.5 + draw(st.floats(-0.1, 0.1))) * slot,
+              "fwhm": slot / draw(st.floats(8, 16)), "height": sigma * draw(_logu(5, 300)),
+              "frac": draw(st.sampled_from([0.3, 0.5, 0.7]))} for i in range(npk)]
+    other = draw(st.sampled_from([k for k in PEAK_KINDS if k != kind]))
+    pk_items = [kind, other] if draw(st.booleans()) else [other, kind]
+    bk_items = draw(st.sampled_from([["linear", "quadratic"], ["quadratic", "linear"], ["linear"]]))
+    quad = draw(st.booleans())
+
+    def items(kinds):
+        return [{"kind": k, "as": draw(st.sampled_from(["name", "instance"])), "prefix": "pre_"} for k in kinds]
+
+    case = {
+        "dim": draw(st.sampled_from(DIMS)), "xunit": draw(st.sampled_from(XUNITS)),
+        "yunit": draw(st.sampled_from(YUNITS)), "grid": g,
+        "bkg": [draw(st.sampled_from([0.0, 5.0, 100.0])), draw(st.floats(-5, 5)),
+                draw(st.floats(-3, 3)) if quad else 0.0],
+        "peaks": peaks,
+        "noise": {"mode": draw(st.sampled_from(["const", "signal"])), "sigma": sigma,
+                  "seed": draw(st.integers(0, 2**32 - 1))},
+        "models": {"peak": {"form": draw(st.sampled_from(["list", "tuple"])), "items": items(pk_items)},
+                   "background": {"form": draw(st.sampled_from(["list", "tuple"])), "items": items(bk_items)}},
+        "params": {"gbf": None, "nsf": draw(st.one_of(st.none(), st.floats(0.05, 0.5))),
+                   "explicit_default": draw(st.booleans())},
+        "reqs": None,
+    }
+    est = [p["pos"] + draw(st.floats(-0.2, 0.2)) * p["fwhm"] for p in peaks]
+    case["estimates"] = [float(v) for v in est]
+    w = draw(st.floats(5, 9)) * peaks[0]["fwhm"]
+    if draw(st.booleans()):
+        case["windows"] = {"mode": "scalar", "width": float(w)}
+    else:
+        case["windows"] = {"mode": "explicit", "ranges": [[float(e - 0.5 * w), float(e + 0.5 * w)] for e in est]}
+    return case
+
+
 def _thin(values, min_sep, allow_dups):
     out = []
     for v in sorted(values):
@@ -705,6 +751,8 @@ def _ok_main(case, k_min=K_MAIN):
 
 @st.composite
 def coherence_cases(draw, tier):
+    if draw(st.integers(0, 3)) == 0:
+        return draw(friendly_case(80, 200 if tier == "quick" else 600, 3))
     if tier == "quick":   # failing fits cost seconds each: fewer estimates and combinations
         case = draw(base_case(60, 200, 4, max_models=(2, 2)))
         case["estimates"] = draw(inside_estimates(case, 30))[:4]
@@ -718,6 +766,11 @@ def coherence_cases(draw, tier):
 @st.composite
 def independence_cases(draw, tier):
     quick = tier == "quick"
+    if draw(st.integers(0, 2)) > 0:
+        case = draw(friendly_case(80, 150 if quick else 400, 2 if quick else 3))
+        case["poison"] = draw(st.integers(0, len(case["estimates"]) - 1))
+        case["poison_seed"] = draw(st.integers(0, 2**32 - 1))
+        return case
     case = draw(base_case(60, 150 if quick else 400, 2 if quick else 3, max_models=(2, 2)))
     case["estimates"] = draw(inside_estimates(case, 30))[: 3 if quick else 4]
     case["windows"] = draw(main_windows(case, K_MAIN))
@@ -854,6 +907,27 @@ def gap_grid_cases(draw, tier):
     return case
 
 
+@st.composite
+def outside_inverted_low_cases(draw, tier):
+    """Mirror image of outside_inverted_cases at the lower end: the separation bound of the first
+    estimate lies below the first data point (estimate far below the data, or two estimates below)."""
+    case = _simple_inside(draw)
+    x = grid_x(case["grid"])
+    xmin = float(x[0])
+    rng = float(x[-1]) - xmin
+    dx = float(np.max(np.diff(x)))
+    f = case["params"]["nsf"] if case["params"]["nsf"] is not None else 1 / 3
+    inside = draw(inside_estimates(case, 40, edges=False, dups=False))[:2]
+    e_next = inside[0]
+    e = e_next - (e_next - xmin) / f * draw(st.floats(1.05, 4.0)) - dx
+    est = [e, *inside]
+    if draw(st.booleans()):
+        est.insert(0, e - draw(st.floats(0.01, 1.0)) * rng)
+    case["estimates"] = [float(v) for v in est]
+    case["windows"] = {"mode": "scalar", "width": float(draw(st.floats(30, 60)) * dx)}
+    return case
+
+
 def _simple_inside(draw, nmax=120, max_peaks=2):
     case = draw(base_case(50, nmax, max_peaks, grid_kinds=("uniform", "uniform", "jitter"),
                           max_models=(1, 1), custom=False))
@@ -864,8 +938,8 @@ def _simple_inside(draw, nmax=120, max_peaks=2):
 @st.composite
 def outside_empty_cases(draw, tier):
     """An estimate beyond an end of the data whose window is merely clipped (empty or short):
-    a single estimate, an estimate beyond the upper end whose neighbour-separation bound lies
-    inside the data, or one or two estimates below the lower end."""
+    a single estimate, or an estimate beyond one end next to estimates inside the data, with the
+    neighbour-separation bound still inside the data."""
     case = _simple_inside(draw)
     x = grid_x(case["grid"])
     xmin, xmax = float(x[0]), float(x[-1])
@@ -874,7 +948,7 @@ def outside_empty_cases(draw, tier):
     f = case["params"]["nsf"] if case["params"]["nsf"] is not None else 1 / 3
     width = float(draw(st.floats(30, 60)) * dx)
     beyond = draw(st.one_of(_logu(0.01, 2.0).map(lambda t: t * rng), st.floats(0.1, 40).map(lambda m: m * dx)))
-    kind = draw(st.sampled_from(["single-high", "single-low", "high-after-inside", "low-before-inside", "low-pair"]))
+    kind = draw(st.sampled_from(["single-high", "single-low", "high-after-inside", "low-before-inside"]))
     inside = draw(inside_estimates(case, 40, edges=False, dups=False))[:2]
     if kind == "single-high":
         est = [xmax + beyond]
@@ -885,10 +959,11 @@ def outside_empty_cases(draw, tier):
         # keep the separation bound inside the data: e_prev + f*(e - e_prev) <= xmax
         e = min(xmax + beyond, e_prev + 0.98 * (xmax - e_prev) / f)
         est = [*inside, e] if e > xmax else [xmax + beyond]
-    elif kind == "low-before-inside":
-        est = [xmin - beyond, *inside]
     else:
-        est = [xmin - beyond - draw(st.floats(0.5, 30)) * dx, xmin - beyond, *inside]
+        e_next = inside[0]
+        # keep the separation bound inside the data: e_next - f*(e_next - e) >= xmin
+        e = max(xmin - beyond, e_next - 0.98 * (e_next - xmin) / f)
+        est = [e, *inside] if e < xmin else [xmin - beyond]
     case["estimates"] = [float(v) for v in est]
     case["windows"] = {"mode": "scalar", "width": width}
     case["outside_kind"] = kind
@@ -966,6 +1041,11 @@ def _run_and_analyse(case, removal=True):
 def check_coherence(case):
     _, results, summary, labels = _run_and_analyse(case)
     return labels, _mixed(summary, len(results))
+
+
+def check_zero_dof(case):
+    _, results, summary, labels = _run_and_analyse(case)
+    return labels, "points==parameters" in labels
 
 
 def check_auto_windows(case):
@@ -1291,9 +1371,9 @@ FACETS = [
           strategy=lambda tier: tiny_window_cases(tier).filter(lambda c: min(intended_counts(c)) < K_TINY),
           quick=(1, 30), thorough=(4, 100), shrink=True, min_nontrivial=0.2,
           doc="windows of 0..3 points must give 'window too narrow', not an exception"),
-    Facet("zero_dof", check_coherence,
+    Facet("zero_dof", check_zero_dof,
           strategy=lambda tier: few_points_cases(tier, zero_dof=True).filter(_zero_dof_region),
-          quick=(1, 12), thorough=(4, 60), shrink=False, min_nontrivial=0.0,
+          quick=(1, 12), thorough=(4, 60), shrink=False, min_nontrivial=0.2,
           doc="windows holding exactly as many points as the model has parameters"),
     Facet("guess_fraction", check_coherence, strategy=lambda tier: guess_fraction_cases(tier),
           quick=(1, 25), thorough=(4, 80), shrink=True, min_nontrivial=0.0,
@@ -1304,6 +1384,10 @@ FACETS = [
     Facet("outside_inverted_window", check_outside, strategy=lambda tier: outside_inverted_cases(tier),
           quick=(1, 25), thorough=(4, 80), shrink=True, min_nontrivial=0.2,
           doc="estimate beyond the upper end whose neighbour-separation bound lies beyond the data"),
+    Facet("outside_inverted_low", check_outside, strategy=lambda tier: outside_inverted_low_cases(tier),
+          quick=(1, 25), thorough=(4, 80), shrink=True, min_nontrivial=0.2,
+          doc="mirror image at the lower end (scipp maps both inverted labels to index 0: no IndexError, "
+              "the empty slice reaches the guess code instead)"),
     Facet("grid_gap", check_coherence, strategy=lambda tier: gap_grid_cases(tier),
           quick=(1, 25), thorough=(4, 80), shrink=False, min_nontrivial=0.0,
           doc="uniform grid with one gap; broad peak centred in the gap, window ending behind it"),
